@@ -6,7 +6,7 @@ from hv.worlds import profile
 hprop.install(globals(), hprop.HistoryProperty(
     prop="C05",
     monitors=lambda: [C05Ledger()],
-    profile=profile(nv=(2, 6), n_requests=(0, 20), socs=[0.003, 0.05, 0.2, 0.5, 0.8, 0.97], prices_always=True),
+    profile=profile(nv=(2, 6), n_requests=(4, 30), socs=[0.003, 0.02, 0.05, 0.2, 0.5, 0.8, 0.97], prices_always=True, builtin=[True, True, False]),
     nontrivial=lambda f: {"two_nonzero_tariffs", "session_cut_by_instruction"} <= f,
     rule=("stateful histories over generated worlds with complete time-varying tariff tables, mixed electric/petrol fleets, station "
           "and base charging, fares from generated rate structures; a double-entry ledger built from charge and pickup events is "
